@@ -2,9 +2,11 @@
 its cases through the sync gRPC client, the asyncio gRPC client and the sync REST client and record the
 `x-goog-request-params` values that reach the loopback servers (C06).
 
-payload: {module, service, service_snake, pkg, cases: [{id, method (snake_case), request: {...proto field names...}}],
-          paths: [sync, async, rest]}
-result : {import_error: str|None, obs: {case id: {path: {status: sent|refused|error, raw: [header values], error}}}}
+payload: {api, list_resp, module, service, service_snake, pkg, paths: [sync, async, rest],
+          cases: [{id, method (snake_case), rpc, request: {...proto field names...}, paged, npages}]}
+result : {import_error: str|None, obs: {case id: {path: {status: sent|refused|error, error,
+          fetches: [[header values of the k-th call that reached the server]..], raw: fetches[0]}}}}
+A paginated method is listed to the end (the loopback server serves `npages` pages), so every page fetch is seen.
 
 Everything recorded is observed from OUTSIDE the emitted code: invocation metadata at the gRPC server, request
 headers at the HTTP server.  `project()` below is the (purely syntactic) projection to the alphabet of
@@ -95,11 +97,13 @@ def classify(raw):
 
 
 def events_of(obs, paths=('sync', 'async', 'rest')):
-    """observations of one case -> RoutingTrace events (all events carry the same fields)."""
+    """observations of one case -> RoutingTrace events (all events carry the same fields).  A listing of a
+    paginated method is one `invoke` followed, per call that reached the server, by (`fetch` for page > 1,)
+    `encode` + `send` (header present) or `send` alone (header absent); `page` is the index of that call."""
     ev = []
 
-    def e(kind, path, present=False, text=(), pairs=()):
-        ev.append(dict(ev=kind, path=path, present=present, text=list(text), pairs=list(pairs)))
+    def e(kind, path, page=1, present=False, text=(), pairs=()):
+        ev.append(dict(ev=kind, path=path, page=page, present=present, text=list(text), pairs=list(pairs)))
 
     for p in paths:
         o = obs.get(p)
@@ -108,13 +112,20 @@ def events_of(obs, paths=('sync', 'async', 'rest')):
         e('invoke', p)
         if o['status'] == 'refused':
             e('refuse', p)
-        elif o['status'] != 'sent' or len(o['raw']) > 1:
-            e('anomaly', p)           # no action of the specification: an exception, or several header entries
-        elif not o['raw']:
-            e('send', p, False)
-        else:
-            e('encode', p, True, classify(o['raw'][0]))
-            e('send', p, True, (), pairs_of(o['raw'][0]))
+            continue
+        if o['status'] != 'sent':
+            e('anomaly', p)           # no action of the specification: an exception before anything was sent
+            continue
+        for k, raw in enumerate(o['fetches'], 1):
+            if k > 1:
+                e('fetch', p, k)
+            if len(raw) > 1:
+                e('anomaly', p, k)    # several header entries
+            elif not raw:
+                e('send', p, k, False)
+            else:
+                e('encode', p, k, True, classify(raw[0]))
+                e('send', p, k, True, (), pairs_of(raw[0]))
     return ev
 
 
@@ -127,6 +138,7 @@ def main():
     from harness import rt
     from harness import loopback_grpc as lg
     from harness import loopback_http as lh
+    import json as _json
     pl = rt.read_payload()
     obs = {c['id']: {} for c in pl['cases']}
     try:
@@ -134,30 +146,56 @@ def main():
     except BaseException as e:  # SyntaxError etc.: the emitted package does not import
         rt.emit(dict(import_error=_err(e), obs=obs))
         return
+    pool = rt.Pool(pl['api']) if any(c.get('paged') for c in pl['cases']) else None
     glog, chlog, hlog = [], [], []
-    gsrv = lg.Server(lambda path, reqs, md, tr: [b''], log=glog)
-    hsrv = lh.Server(lambda entry: (200, b'{}', {}), log=hlog)
+    state = dict(case=None, count=0)
 
-    def grpc_seen(n0, expected_path):
+    def page_of():
+        """script of the server: call k of a listing returns one item and the token t<k> while k < npages."""
+        c = state['case']
+        state['count'] += 1
+        k = state['count']
+        if c is None or not c.get('paged'):
+            return None
+        return dict(items=[f'i{k}'], next_page_token=f't{k}' if k < c['npages'] else '')
+
+    def g_respond(path, reqs, md, tr):
+        d = page_of()
+        return [b'' if d is None else pool.encode(pl['list_resp'], d)]
+
+    def h_respond(entry):
+        d = page_of()
+        return (200, b'{}' if d is None else _json.dumps(dict(items=d['items'], nextPageToken=d['next_page_token'])).encode(), {})
+
+    gsrv = lg.Server(g_respond, log=glog)
+    hsrv = lh.Server(h_respond, log=hlog)
+
+    def begin(c):
+        state['case'], state['count'] = c, 0
+
+    def grpc_seen(n0, expected_path, err):
         ents = [x for x in glog[n0:] if x['ev'] == 'ServerRecv']
         if not ents:
-            return None
-        if ents[-1]['path'] != expected_path:
-            return dict(status='error', raw=[], error='wrong rpc path ' + ents[-1]['path'])
-        return dict(status='sent', raw=[v for k, v in ents[-1]['md'] if k.lower() == HEADER], error=None)
+            return dict(status='error', raw=[], fetches=[], error=err or 'no request reached the server')
+        if any(x['path'] != expected_path for x in ents):
+            return dict(status='error', raw=[], fetches=[], error='wrong rpc path ' + ents[-1]['path'])
+        fetches = [[v for k, v in x['md'] if k.lower() == HEADER] for x in ents]
+        return dict(status='sent', raw=fetches[0], fetches=fetches, error=err)
 
     try:
         if 'sync' in pl['paths']:
             mod, client, ch = rt.grpc_client(pl['module'], pl['service_snake'], pl['service'], gsrv.target, chlog)
             for c in pl['cases']:
                 n0 = len(glog); err = None
+                begin(c)
                 try:
-                    getattr(client, c['method'])(request=c['request'])
+                    res = getattr(client, c['method'])(request=c['request'])
+                    if c.get('paged'):
+                        for _ in res:
+                            pass
                 except Exception as e:
                     err = _err(e)
-                o = grpc_seen(n0, c['rpc'])
-                obs[c['id']]['sync'] = o if o is not None and (err is None or o['status'] == 'sent') else \
-                    dict(status='error', raw=[], error=err or 'no request reached the server')
+                obs[c['id']]['sync'] = grpc_seen(n0, c['rpc'], err)
                 del chlog[:]
             ch.close()
         if 'async' in pl['paths']:
@@ -166,13 +204,15 @@ def main():
                                                  chlog, asyncio_=True)
                 for c in pl['cases']:
                     n0 = len(glog); err = None
+                    begin(c)
                     try:
-                        await getattr(client, c['method'])(request=c['request'])
+                        res = await getattr(client, c['method'])(request=c['request'])
+                        if c.get('paged'):
+                            async for _ in res:
+                                pass
                     except Exception as e:
                         err = _err(e)
-                    o = grpc_seen(n0, c['rpc'])
-                    obs[c['id']]['async'] = o if o is not None and (err is None or o['status'] == 'sent') else \
-                        dict(status='error', raw=[], error=err or 'no request reached the server')
+                    obs[c['id']]['async'] = grpc_seen(n0, c['rpc'], err)
                     del chlog[:]
                 await ch.close()
             asyncio.run(amain())
@@ -180,19 +220,23 @@ def main():
             mod, client = rt.rest_client(pl['module'], pl['service_snake'], pl['service'], hsrv.hostport)
             for c in pl['cases']:
                 n0 = len(hlog); err = None
+                begin(c)
                 try:
-                    getattr(client, c['method'])(request=c['request'])
+                    res = getattr(client, c['method'])(request=c['request'])
+                    if c.get('paged'):
+                        for _ in res:
+                            pass
                 except Exception as e:
                     err = _err(e)
                 ents = hlog[n0:]
                 if ents:
-                    obs[c['id']]['rest'] = dict(status='sent', error=err,
-                                                raw=[v for k, v in ents[-1]['headers'] if k.lower() == HEADER])
+                    fetches = [[v for k, v in x['headers'] if k.lower() == HEADER] for x in ents]
+                    obs[c['id']]['rest'] = dict(status='sent', error=err, raw=fetches[0], fetches=fetches)
                 elif err is not None:
                     # the transport raised before any HTTP request was made (transcoding refused the request)
-                    obs[c['id']]['rest'] = dict(status='refused', raw=[], error=err)
+                    obs[c['id']]['rest'] = dict(status='refused', raw=[], fetches=[], error=err)
                 else:
-                    obs[c['id']]['rest'] = dict(status='error', raw=[], error='no request reached the server')
+                    obs[c['id']]['rest'] = dict(status='error', raw=[], fetches=[], error='no request reached the server')
     finally:
         gsrv.stop(); hsrv.stop()
     rt.emit(dict(import_error=None, obs=obs))
